@@ -1,5 +1,6 @@
 import MaltModel.Analysis.Activity
 import MaltModel.Spec.Symtable
+import MaltModel.Spec.Dynamic
 /-
 The syntactic situations in which the pinned activity analysis is known to deviate from Python's
 binding rules.  Each function returns the *names implicated* in one deviation class for a given
@@ -400,5 +401,160 @@ def allDeclsDisjoint (t : Stmt) : Bool :=
   match blockOf t with
   | some b => disjB b
   | none => true
+
+
+/-! ### comprehensions in the `_partial` theorems -/
+
+mutual
+/-- Inside a comprehension (`inComp`) every name in Store context is one of the iteration variables `hid` of the
+    enclosing comprehensions — i.e. no named expression inside a comprehension (class `walrusInComp`) and
+    well-formed expression contexts; the `for` clauses of a comprehension are `comprehension` nodes. -/
+def storesOkE (inComp : Bool) (hid : List String) : Expr → Bool
+  | .name _ s c => c != .store || !inComp || hid.contains s
+  | .const .. | .noneMarker => true
+  | .attr _ v _ _ => storesOkE inComp hid v
+  | .subscript _ v s _ => storesOkE inComp hid v && storesOkE inComp hid s
+  | .call _ f as ks => storesOkE inComp hid f && storesOkEs inComp hid as && storesOkEs inComp hid ks
+  | .keyword _ _ _ v => storesOkE inComp hid v
+  | .boolop _ _ vs => storesOkEs inComp hid vs
+  | .unary _ _ x => storesOkE inComp hid x
+  | .binop _ _ l r => storesOkE inComp hid l && storesOkE inComp hid r
+  | .compare _ l _ cs => storesOkE inComp hid l && storesOkEs inComp hid cs
+  | .ifexp _ t b o => storesOkE inComp hid t && storesOkE inComp hid b && storesOkE inComp hid o
+  | .lambda _ args body =>
+      (match args with
+       | .arguments _ _ _ _ _ kd _ df => storesOkEs inComp hid kd && storesOkEs inComp hid df
+       | _ => true) && storesOkE inComp hid body
+  | .seq _ _ es _ => storesOkEs inComp hid es
+  | .starred _ v _ => storesOkE inComp hid v
+  | .namedexpr _ t v => storesOkE inComp hid t && storesOkE inComp hid v
+  | .comp _ _ elts gens =>
+      (match gens with
+       | .comprehension _ _ it _ _ :: _ => storesOkE true hid it      -- the first iterable belongs to the enclosing block
+       | _ => false) &&
+      storesOkEs true (Spec.compTargets gens ++ hid) gens && storesOkEs true (Spec.compTargets gens ++ hid) elts
+  | .comprehension _ t it ifs _ => storesOkE inComp hid t && storesOkE inComp hid it && storesOkEs inComp hid ifs
+  | .arguments .. => true
+  | .arg _ _ an => storesOkEs inComp hid an
+  | .withitem _ c v => storesOkE inComp hid c && storesOkEs inComp hid v
+  | .other _ _ _ kids => storesOkEs inComp hid kids
+def storesOkEs (inComp : Bool) (hid : List String) : List Expr → Bool
+  | [] => true
+  | e :: rest => storesOkE inComp hid e && storesOkEs inComp hid rest
+end
+
+
+/-! ### the larger fragments (comprehensions allowed) of `C08_compositional_comp` / `C08_dynamic_comp` -/
+
+mutual
+/-- Expressions of the larger fragment: comprehensions allowed; still no parameter annotation. -/
+def FragC : Expr → Bool
+  | .name .. | .const .. | .noneMarker => true
+  | .attr _ v _ _ => FragC v
+  | .subscript _ v s _ => FragC v && FragC s
+  | .call _ f as ks => FragC f && FragCs as && FragCs ks
+  | .keyword _ _ _ v => FragC v
+  | .boolop _ _ vs => FragCs vs
+  | .unary _ _ x => FragC x
+  | .binop _ _ l r => FragC l && FragC r
+  | .compare _ l _ cs => FragC l && FragCs cs
+  | .ifexp _ t b o => FragC t && FragC b && FragC o
+  | .lambda _ args body =>
+      (match args with
+       | .arguments _ po ar va ko kd kw df =>
+           po.all isPlainArg && ar.all isPlainArg && va.all isPlainArg && ko.all isPlainArg && kw.all isPlainArg &&
+           FragCs kd && FragCs df
+       | _ => false) && FragC body
+  | .seq _ _ es _ => FragCs es
+  | .starred _ v _ => FragC v
+  | .namedexpr _ t v => FragC t && FragC v
+  | .comp _ _ es gs => FragCs es && FragCs gs
+  | .comprehension _ t it ifs _ => FragC t && FragC it && FragCs ifs
+  | .arguments .. | .arg .. => false
+  | .withitem _ c v => FragC c && FragCs v
+  | .other _ _ _ kids => FragCs kids
+def FragCs : List Expr → Bool
+  | [] => true
+  | e :: es => FragC e && FragCs es
+end
+
+
+mutual
+/-- Statements of the larger fragment (comprehensions allowed). -/
+def FragSC : Stmt → Bool
+  | .functionDef _ _ args body decos returns isAsync =>
+      !isAsync &&
+      (match args with
+       | .arguments _ po ar va ko kd kw df =>
+           po.all isPlainArg && ar.all isPlainArg && va.all isPlainArg && ko.all isPlainArg && kw.all isPlainArg &&
+           FragCs kd && FragCs df
+       | _ => false) && FragCs decos && FragCs returns && FragSCs body
+  | .classDef _ _ bases kws body decos => FragCs bases && FragCs kws && FragCs decos && FragSCs body
+  | .ret _ v => FragCs v
+  | .delete _ ts => FragCs ts
+  | .assign _ ts v => FragCs ts && FragC v
+  | .augAssign _ t _ v => FragC t && FragC v
+  | .annAssign _ t an v _ => FragC t && FragC an && FragCs v
+  | .for_ _ t it body orelse extra isAsync => !isAsync && extra.isEmpty && FragC t && FragC it && FragSCs body && FragSCs orelse
+  | .while_ _ t body orelse => FragC t && FragSCs body && FragSCs orelse
+  | .if_ _ t body orelse => FragC t && FragSCs body && FragSCs orelse
+  | .with_ _ items body isAsync => !isAsync && FragCs items && items.all isWithitem && FragSCs body
+  | .raise _ e c => FragCs e && FragCs c
+  | .try_ _ b h o f => FragSCs b && FragSCs h && FragSCs o && FragSCs f
+  | .handler _ ty _ body => FragCs ty && FragSCs body
+  | .assert_ _ t m => FragC t && FragCs m
+  | .import_ .. | .importFrom .. | .global .. | .nonlocal .. | .pass _ | .break_ _ | .continue_ _ => true
+  | .expr _ v => FragC v
+  | .other _ _ es bs => FragCs es && FragSCs bs
+def FragSCs : List Stmt → Bool
+  | [] => true
+  | s :: ss => FragSC s && FragSCs ss
+end
+
+
+
+
+/-- Expressions of the larger fragment whose comprehensions contain no store other than their iteration variables. -/
+def FragD (e : Expr) : Bool := FragC e && storesOkE false [] e
+
+def FragDs : List Expr → Bool
+  | [] => true
+  | e :: es => FragD e && FragDs es
+
+
+mutual
+/-- Statements of the larger fragment of the dynamic theorem (comprehensions without foreign stores allowed). -/
+def FragSD : Stmt → Bool
+  | .functionDef _ _ args body decos returns isAsync =>
+      !isAsync &&
+      (match args with
+       | .arguments _ po ar va ko kd kw df =>
+           po.all isPlainArg && ar.all isPlainArg && va.all isPlainArg && ko.all isPlainArg && kw.all isPlainArg &&
+           FragDs kd && FragDs df
+       | _ => false) && FragDs decos && FragDs returns && FragSDs body
+  | .classDef _ _ bases kws body decos => FragDs bases && FragDs kws && FragDs decos && FragSDs body
+  | .ret _ v => FragDs v
+  | .delete _ ts => FragDs ts
+  | .assign _ ts v => FragDs ts && FragD v
+  | .augAssign _ t _ v => FragD t && FragD v
+  | .annAssign _ t an v _ => FragD t && FragD an && FragDs v
+  | .for_ _ t it body orelse extra isAsync => !isAsync && extra.isEmpty && FragD t && FragD it && FragSDs body && FragSDs orelse
+  | .while_ _ t body orelse => FragD t && FragSDs body && FragSDs orelse
+  | .if_ _ t body orelse => FragD t && FragSDs body && FragSDs orelse
+  | .with_ _ items body isAsync => !isAsync && FragDs items && items.all isWithitem && FragSDs body
+  | .raise _ e c => FragDs e && FragDs c
+  | .try_ _ b h o f => FragSDs b && FragSDs h && FragSDs o && FragSDs f
+  | .handler _ ty _ body => FragDs ty && FragSDs body
+  | .assert_ _ t m => FragD t && FragDs m
+  | .import_ .. | .importFrom .. | .global .. | .nonlocal .. | .pass _ | .break_ _ | .continue_ _ => true
+  | .expr _ v => FragD v
+  | .other _ _ es bs => FragDs es && FragSDs bs
+def FragSDs : List Stmt → Bool
+  | [] => true
+  | s :: ss => FragSD s && FragSDs ss
+end
+
+
+
 
 end Malt.Analysis
